@@ -28,8 +28,23 @@ def reader_eval(case):
     data = mciipm.vbs_list_to_bytes(recs, blocked=bool(case['b']))
     got, exc = [], None
     try:
-        for r in mciipm.IpmReader(io.BytesIO(data), encoding=codec, iso_config=cfg, blocked=bool(case['b'])):
+        given = cfg
+        if case.get('late_config'):
+            # the reader is created with the caller's configuration object BEFORE masking is switched on in it — by putting
+            # a new entry in place of the old one (not by editing the entry) — and is read afterwards
+            given = copy.deepcopy(plain)
+        reader = mciipm.IpmReader(io.BytesIO(data), encoding=codec, iso_config=given, blocked=bool(case['b']))
+        if case.get('late_config'):
+            for kk, fc in cfg.items():
+                if fc.get('field_processor'):
+                    given[kk] = dict(given[kk], field_processor=fc['field_processor'])
+        for i, r in enumerate(reader):
             got.append(r)
+            if i == 0 and case.get('second_reader'):
+                # while this reader is half way through its file, ANOTHER reader is created without a configuration (the
+                # packaged one: no masking) and read to its end
+                other = mciipm.vbs_list_to_bytes([iso8583.dumps({'MTI': '1240', 'DE2': '4' * 16})])
+                list(mciipm.IpmReader(io.BytesIO(other)))
     except Exception as ex:  # noqa
         exc = ex
     why = None
@@ -176,5 +191,9 @@ def explore(run, tier):
                 for _ in range(3)]
         cases.append({'k': 'reader', 'cfg': cfg, 'codec': codec, 'b': i % 2, 'msgs': [iu.dict_wire(m) for m in msgs],
                       'extra_bit': [49, 22, 24][i % 3], 'at': i % 3})
+        cases.append({'k': 'reader', 'cfg': cfg, 'codec': codec, 'b': i % 2, 'msgs': [iu.dict_wire(m) for m in msgs],
+                      'extra_bit': [49, 22, 24][i % 3], 'at': 3, 'second_reader': True})
+        cases.append({'k': 'reader', 'cfg': cfg, 'codec': codec, 'b': i % 2, 'msgs': [iu.dict_wire(m) for m in msgs],
+                      'extra_bit': [49, 22, 24][i % 3], 'at': 2 + i % 2, 'late_config': True})
     run.exhaustive.append('PAN and PAN-PREFIX on every unprocessed variable-length element of the packaged configuration x every length 10..40')
     run.correspond(__name__, cases, use_model=run.use_model, chunk=150)
